@@ -273,3 +273,23 @@ def closure_width(prog, clo):
                 continue
         return None
     return total
+
+
+STRUCTURAL = re.compile(r" as std::(cmp::(PartialEq|Eq|Ord|PartialOrd)|hash::Hash)(<.*>)?>::(eq|ne|cmp|partial_cmp|hash|lt|le|gt|ge|max|min|clamp)$")
+
+
+def structural_traits(ctx, rule):
+    """Sorting before hashing, duplicate detection in sets and map lookups all go through PartialEq/Eq/Ord/Hash of the
+    workspace's value types.  They are canonical only if those impls are the structural (derived) ones: a hand-written
+    comparison that ignores a field or a suffix makes distinct values equal, or the order depend on something else."""
+    prog = ctx.prog
+    derived, hand = 0, []
+    for f in prog.fns.values():
+        if f.crate in ("essential_types", "essential_hash", "essential_check", "essential_sign") and STRUCTURAL.search(f.path):
+            if f.exp:
+                derived += 1
+            else:
+                hand.append(f)
+    ctx.ob(rule, "equality-order-hash-of-value-types-are-derived", not hand, "%s:%d" % (hand[0].file, hand[0].line) if hand else "crates/types/src",
+           "%d derive-generated PartialEq/Eq/Ord/PartialOrd/Hash methods; hand-written: %s" % (derived, [f.path for f in hand]))
+    ctx.floor(rule, "derived comparison/hash methods of the value types", derived, 40)
